@@ -302,6 +302,12 @@ fn big_shapes() -> Vec<Case> {
             }
         }
     }
+    // output lists that push the metadata block across the 1-, 2- and 3-byte length-prefix boundaries
+    for nsig in [100usize, 127, 128, 16_380, 16_384, 20_000] {
+        let nodes = vec![GNode::Input(1), GNode::Input(2), GNode::Const(big(3)), GNode::Duo(2, 0, 1), GNode::Duo(0, 3, 2)];
+        let signals: Vec<u32> = (0..nsig).map(|k| (k % 5) as u32).collect();
+        out.push(Case { layout: format!("outputs-{nsig}"), nodes, signals, inputs: vec![("a".into(), 1, 1), ("b".into(), 2, 1)], assign: vec![vec![big(4)], vec![p() - big(2)]] });
+    }
     // three named inputs, a vector of length 3 at a large offset, long names, many outputs
     for off in [3u32, 130, 300] {
         let long = "x".repeat(150);
